@@ -284,6 +284,12 @@ int main() {
       else if (what == "SmoothByNormals") m = Manifold::Cube().CalculateNormals(0).SmoothByNormals((int)n);
       else if (what == "CalculateCurvature") m = Manifold::Sphere(1, 8).CalculateCurvature((int)n, (int)n + 1);
       else if (what == "CalculateNormals") m = Manifold::Cube().CalculateNormals((int)n, a);
+      else if (what == "GetMeshGL") {
+        Manifold c = Manifold::Cube().CalculateNormals(0) + Manifold::Cube().Translate({0.5, 0, 0});
+        MeshGL g = c.GetMeshGL((int)n);
+        MeshGL64 g64 = c.GetMeshGL64((int)n);
+        m = Manifold(g64);
+      }
       else if (what == "Circle") { CrossSection cs = CrossSection::Circle(a, (int)n); m = Manifold::Extrude(cs.ToPolygons(), 1); }
       else if (what == "Square") { CrossSection cs = CrossSection::Square({a, b}, n & 1); m = Manifold::Extrude(cs.ToPolygons(), 1); }
       else if (what == "Offset") { CrossSection cs = CrossSection::Square({1, 1}).Offset(a, CrossSection::JoinType::Round, b, (int)n); m = Manifold::Extrude(cs.ToPolygons(), 1); }
